@@ -103,6 +103,17 @@ def h_history(ctx, k, detect, readwrite, finish):
                 raise KeyError("boom")
         except KeyError:
             pass
+    elif finish == "with-vanished":
+        # the block is left by the error the library itself raises for a vanished node
+        E.cur_inode = None if detect else cur_ino
+        sc.fail_next = False
+        try:
+            with dev:
+                dev.execute(_cmd(dev))
+                raise FileNotFoundError("left the block with the same error class")
+        except FileNotFoundError:
+            pass
+        E.cur_inode = cur_ino
     elif finish == "facade-with":
         from pyscsi.pyscsi.scsi import SCSI
         E.cur_inode = cur_ino
@@ -142,7 +153,7 @@ def obligations(tier):
     for k in ks:
         for detect in (True, False):
             for rw in (False, True):
-                fins = ("close", "with", "with-exception", "facade-with") if k <= 2 else ("close",)
+                fins = ("close", "with", "with-exception", "with-vanished", "facade-with") if k <= 2 else ("close",)
                 for fin in fins:
                     if not detect and k > 2 and tier == "quick":
                         continue
